@@ -33,7 +33,7 @@ TIERS = {
     # p_*: sampling of frames into the verdict file (all frames are judged on the real code)
     "quick": dict(cfg="MessageCodec_MC.cfg", randoms=20, random_frames=200_000, p_acc=0.08, p_rej=0.015, p_aimed=0.6,
                   chunk=250, tlc_timeout=600),
-    "thorough": dict(cfg="MessageCodec_MC_thorough.cfg", randoms=150, random_frames=3_000_000, p_acc=0.25, p_rej=0.04,
+    "thorough": dict(cfg="MessageCodec_MC_thorough.cfg", randoms=300, random_frames=6_000_000, p_acc=0.35, p_rej=0.04,
                      p_aimed=1.0, chunk=400, tlc_timeout=1500),
 }
 
@@ -279,6 +279,9 @@ def run(prop, tier, seed):
 
     try:
         os.remove(verdicts)
+        if verdict.violations == 0 and drift_count == 0:
+            import shutil
+            shutil.rmtree(wd, ignore_errors=True)
     except OSError:
         pass
     coverage = dict(
@@ -322,6 +325,7 @@ def replay(prop, path, seed):
         if os.path.exists(out) and os.path.getsize(out) > 0:
             res = vlib.tlc_trace("MessageCodec_Trace", "MessageCodec_Trace.cfg", out, timeout=300)
             for (idx, p, why) in res["violations"]:
-                if p == prop:
+                strict = os.environ.get("VERIF_C08_STRICT") == "1" and why.startswith("real accepts, reference rejects")
+                if p == prop or strict:
                     verdict.violation(why.rsplit(" #", 1)[0], dict(case=data["case"], replay_of=path))
     return verdict
